@@ -51,7 +51,7 @@ Definition g_description : PM unit := p_node SK_DESCRIPTION (p_node SK_STRING_VA
 
 (* ------------------------------------------------------------------ ty.rs *)
 (* Result<(), Option<Token>> *)
-Inductive g_tyres := GTyOk | GTyErr (t : option ptoken).
+Inductive g_tyres := GTyOk | GTyErr (t : option prstoken).
 
 Definition g_parse_body (parse_rec : PM g_tyres) : PM g_tyres :=
   checkpoint <- p_checkpoint_node ;;
